@@ -1179,7 +1179,7 @@ def run(c):
     matrix.backend('numpy').__enter__() if hasattr(matrix.backend('numpy'), '__enter__') else None
     broken = c.build_and_audit()
     quick = c.tier == 'quick'
-    N = 500 if quick else 30000
+    N = 500 if quick else 80000
     if getattr(c, 'replay', None):
         return replay(c, matrix, numeric)
     batch = Batch()
